@@ -216,6 +216,35 @@ def gate_tables(tier):
             if got is not (s[2 * a + b] == '1'):
                 fail('tt_to_gate_type', f'{s} -> {gt.name} but {gt.name}({a},{b}) = {got}')
     samples.append('circuit_search.Operation / _tt_to_gate_type: 16 codes')
+    # 3b. the gate type handed to fix_gate denotes the same function: a one-gate search for T(x0, x1) with the gate fixed to
+    #     T over (x0, x1) succeeds and returns T; fixed to the operand-swapped type it has no solution unless T is symmetric
+    from cirbo.core.truth_table import TruthTableModel
+    from cirbo.synthesis import exception as sx
+    import cirbo.core.circuit.gate as cg
+
+    def one_gate(table, fixed):
+        finder = cs.CircuitFinderSat(TruthTableModel([[c == '1' for c in table]]), 1, basis=cs.Basis.FULL)
+        finder.fix_gate(2, first_predecessor=0, second_predecessor=1, gate_type=getattr(cg, fixed))
+        try:
+            return finder.find_circuit()
+        except sx.NoSolutionError:
+            return None
+
+    for name, tt in sorted(refsem.BIN_TT.items()):
+        n_checked += 1
+        circ = one_gate(tt, name)
+        if circ is None:
+            fail('fix_gate_type', f'no one-gate circuit for {name}(x0, x1) with the gate fixed to {name} over (x0, x1)')
+            continue
+        g = [circ.get_gate(l) for l in circ.gates if circ.get_gate(l).gate_type.name != 'INPUT']
+        if len(g) != 1 or refsem.BIN_TT.get(g[0].gate_type.name) != tt or [str(o) for o in g[0].operands] != [str(i) for i in circ.inputs]:
+            fail('fix_gate_type', f'gate fixed to {name} over (x0, x1) came back as {[(x.gate_type.name, x.operands) for x in g]}')
+        swapped = ''.join(tt[2 * b + a] for a in (0, 1) for b in (0, 1))
+        if swapped != tt:
+            other = next(k for k, v in refsem.BIN_TT.items() if v == swapped)
+            if one_gate(tt, other) is not None:
+                fail('fix_gate_type', f'{name}(x0, x1) realised by a gate fixed to {other} over (x0, x1)')
+    samples.append('fix_gate(gate_type=T): 14 two-operand types, one-gate search')
 
     # 4. arithmetic gate codes
     from cirbo.synthesis.generation.arithmetics import _utils as au
